@@ -22,6 +22,8 @@ import re
 import sys
 import time
 sys.path.insert(0, os.path.dirname(os.path.abspath(__file__)))
+# bound on the number of children / elements per node; the thorough tier of the driver raises it
+DEPTH = int(os.environ.get("MIRSYM_DEPTH", "3"))
 from mirsym import Engine, parse_mir, STD_MODELS, Unsupported, PanicFound, Ref, Opaque
 
 EXPR_DISC = {"Expr::Unspecified": 0, "Expr::Call": 1, "Expr::Comprehension": 2, "Expr::Ident": 3, "Expr::List": 4,
@@ -228,7 +230,7 @@ def main():
 
     try:
         # ---- list literals
-        for n in range(0, 4):
+        for n in range(0, DEPTH + 1):
             for bad in [None] + list(range(n)):
                 results = {("e", j): (err(("e", j)) if bad == j else ok(("abs_val", "e%d" % j))) for j in range(n)}
                 upto = n if bad is None else bad + 1
@@ -252,7 +254,7 @@ def main():
         except PanicFound as p:
             failures.append({"node": "struct", "problems": ["panic reachable: %s" % p.msg]})
         # ---- map literals
-        for n in range(0, 4):
+        for n in range(0, DEPTH + 1):
             for kinds in itertools.product(["int", "uint", "bool", "string", "null"], repeat=n):
                 for bad in [None] + [("k", j) for j in range(n)] + [("v", j) for j in range(n)]:
                     if n >= 2 and bad is not None and kinds.count("int") == 0 and len(set(kinds)) > 1 and kinds[0] != "int":
